@@ -34,3 +34,14 @@ Theorem C01_unambiguous : forall A C, valid A C = true -> uses_recovery A = fals
   yield t1 = yield t2 -> t1 = t2.
 Proof. intros A C Hv _. exact (unambiguous A C Hv). Qed.
 Print Assumptions C01_unambiguous.
+
+(** the parser decides the language: for every input there is a budget beyond which the answer is its
+    derivation tree if it is a sentence and an error if it is not -- never "out of budget", never a
+    panic (uses the termination theorem of C08) *)
+Theorem C01_parser_decides_the_language : forall A C, valid A C = true -> uses_recovery A = false ->
+  forall w, Forall (tok_in_range A) w ->
+  exists n, forall fuel, n <= fuel ->
+    (exists t s, drive A no_fail fuel (map IOk w) = (ROk t, s) /\ wfp A t (Nt (start_nt A)) /\ yield t = w) \/
+    (exists e s, drive A no_fail fuel (map IOk w) = (RErr e, s) /\ ~ sentence A w).
+Proof. exact parser_decides. Qed.
+Print Assumptions C01_parser_decides_the_language.
